@@ -91,7 +91,7 @@ func qinqAlphabet(c Case) []Op {
 	s1 := c.SR[0][0]
 	sOut := clamp16(c.SR[len(c.SR)-1][1] + 1)
 	c1, c2, cOut := c.Cfg[0], c.Cfg[1], clamp16(c.Cfg[1]+1)
-	pairs := [][2]int{{s1, c1}, {s1, c2}, {0, c1}, {sOut, c1}, {s1, cOut}, {s1, 0}}
+	pairs := [][2]int{{s1, c1}, {s1, c2}, {0, c1}, {sOut, c1}, {s1, cOut}}
 	var a []Op
 	for _, p := range pairs {
 		for id := 0; id < 2; id++ {
@@ -169,12 +169,11 @@ func genQinQRandom(r *vh.Rng, maxOps int) Case {
 	return c
 }
 
-func sessAlphabet(nmac int, withDup bool) []Op {
+func sessAlphabet(nmac int) []Op {
 	var a []Op
 	for m := 0; m < nmac; m++ {
 		a = append(a, Op{K: "c", C: m})
 	}
-	_ = withDup
 	a = append(a, Op{K: "rold"}, Op{K: "rnew"}, Op{K: "rid", S: 0}, Op{K: "rid", S: 1})
 	return a
 }
@@ -273,17 +272,25 @@ func genCKey(r *vh.Rng, guarded bool, nops int) Case {
 	return c
 }
 
-// every length 0..64 of one stem, then the same with a zero appended: the systematic family
+// every length 0..64 of one stem (truncation family); every length 0..31 of one stem, each also with a
+// zero byte appended (padding family, no circuit-id longer than the key)
 func ckeyFamilies(r *vh.Rng) []Case {
 	var out []Case
 	for _, stem := range [][]byte{[]byte("olt-1/pon-3/onu-17/gem-4/vlan-1010/service-port-0123456789abcdef!"), r.Bytes(64)} {
-		c := Case{Comp: "ckey", Note: "every length 0..64 of one stem, plus trailing zeros"}
+		c := Case{Comp: "ckey", Note: "every length 0..64 of one stem"}
 		for l := 0; l <= 64; l++ {
 			c.Ops = append(c.Ops, Op{K: "key", B: append([]byte(nil), stem[:l]...)})
+			if l%4 == 0 {
+				c.Ops = append(c.Ops, Op{K: "hash", B: append([]byte(nil), stem[:l]...)})
+			}
 		}
-		for l := 0; l <= 33; l += 3 {
+		out = append(out, c)
+		c = Case{Comp: "ckey", Note: "every length 0..31 of one stem, and the same followed by a zero byte"}
+		for l := 0; l <= 31; l++ {
+			c.Ops = append(c.Ops, Op{K: "key", B: append([]byte(nil), stem[:l]...)})
+		}
+		for l := 31; l >= 0; l -= 5 {
 			c.Ops = append(c.Ops, Op{K: "key", B: append(append([]byte(nil), stem[:l]...), 0)})
-			c.Ops = append(c.Ops, Op{K: "hash", B: append([]byte(nil), stem[:l]...)})
 		}
 		out = append(out, c)
 	}
@@ -437,91 +444,104 @@ func genIdx(r *vh.Rng, kind, maxOps int, guarded bool) Case {
 }
 
 func genStreams(r *vh.Rng, thorough bool) []stream {
-	var out []stream
-	depth, rnd, maxOps, capCases := 5, 100, 16, 1500
+	depth, rnd, maxOps, capCases := 5, 24, 14, 400
 	if thorough {
-		depth, rnd, maxOps, capCases = 7, 1500, 40, 20000
+		depth, rnd, maxOps, capCases = 7, 300, 40, 2500
 	}
-	add := func(name, comp string, cases []vh.Case, extra map[string]interface{}) {
-		out = append(out, stream{name, comp, cases, extra})
+	acc := map[string]*stream{}
+	var order []string
+	add := func(name, comp string, cases []vh.Case, ex map[string]interface{}) {
+		st, ok := acc[name]
+		if !ok {
+			st = &stream{name: name, comp: comp, extra: map[string]interface{}{}}
+			acc[name] = st
+			order = append(order, name)
+		}
+		st.cases = append(st.cases, cases...)
+		if ex != nil {
+			l, _ := st.extra["explorations"].([]interface{})
+			st.extra["explorations"] = append(l, ex)
+			if e, ok := ex["exhaustive"].(bool); ok {
+				prev, seen := st.extra["exhaustive"].(bool)
+				st.extra["exhaustive"] = e && (prev || !seen)
+			}
+		}
+	}
+	rndCases := func(n int, gen func() Case) []vh.Case {
+		var cs []vh.Case
+		for i := 0; i < n; i++ {
+			c := gen()
+			cs = append(cs, toCase(c, run(c)))
+		}
+		return cs
 	}
 	// --- VLAN: exhaustive over small ranges (2-3 values), incl. ranges that end at 65535
-	for i, cfg := range [][]int{{10, 11, 5, 6}, {65534, 65535, 65535, 65535}, {20, 22, 9, 9}} {
+	vcfgs := [][]int{{10, 11, 5, 6}, {65534, 65535, 65535, 65535}}
+	if thorough {
+		vcfgs = append(vcfgs, []int{20, 22, 9, 9}, []int{0, 1, 0, 1})
+	}
+	for _, cfg := range vcfgs {
 		base := Case{Comp: "vlan", Cfg: cfg, NH: 3}
 		cs, ex := explore(base, vlanAlphabet(cfg, 3), depth, capCases)
 		ex["config"] = fmt.Sprint(cfg)
-		add(fmt.Sprintf("vlan_ex%d", i), "vlan", cs, ex)
+		add("guarded", "vlan", cs, ex)
 	}
-	var cs []vh.Case
-	for i := 0; i < rnd; i++ {
-		c := genVLANRandom(r.Fork(), maxOps)
-		cs = append(cs, toCase(c, run(c)))
-	}
-	add("vlan_rnd", "vlan", cs, nil)
+	add("guarded", "vlan", rndCases(2*rnd, func() Case { return genVLANRandom(r.Fork(), maxOps) }), nil)
 	// --- QinQ
-	for i, base := range []Case{
-		{Comp: "qinq", SR: [][2]int{{100, 101}}, Cfg: []int{10, 11}, NH: 3},
-		{Comp: "qinq", SR: [][2]int{{65534, 65535}}, Cfg: []int{65535, 65535}, NH: 3},
-	} {
+	qb := []Case{{Comp: "qinq", SR: [][2]int{{100, 101}}, Cfg: []int{10, 11}, NH: 3}}
+	if thorough {
+		qb = append(qb, Case{Comp: "qinq", SR: [][2]int{{65534, 65535}}, Cfg: []int{65535, 65535}, NH: 3})
+	}
+	for _, base := range qb {
 		cs, ex := explore(base, qinqAlphabet(base), depth, capCases)
-		add(fmt.Sprintf("qinq_ex%d", i), "qinq", cs, ex)
+		add("guarded", "qinq", cs, ex)
 	}
-	cs = nil
-	for i := 0; i < rnd; i++ {
-		c := genQinQRandom(r.Fork(), maxOps)
-		cs = append(cs, toCase(c, run(c)))
-	}
-	add("qinq_rnd", "qinq", cs, nil)
-	// --- sessions: guarded (one live session per MAC) and defect streams, counters near the wrap
-	for i, next := range []int{1, 65534} {
+	add("guarded", "qinq", rndCases(2*rnd, func() Case { return genQinQRandom(r.Fork(), maxOps) }), nil)
+	// --- sessions: guarded (every live session has its own MAC) and defect streams, counters near the wrap
+	for _, next := range []int{1, 65534} {
 		base := Case{Comp: "sess", Cfg: []int{next}}
-		cs, ex := explore(base, sessAlphabet(2, true), depth, capCases)
+		cs, ex := explore(base, sessAlphabet(2), depth, capCases/2)
 		ex["initial_next_id"] = next
-		add(fmt.Sprintf("sess_ex%d", i), "sess", cs, ex)
+		add("defect", "sess", cs, ex)
 	}
-	var g, d []vh.Case
-	for i := 0; i < rnd; i++ {
-		c := genSessRandom(r.Fork(), maxOps, true)
-		g = append(g, toCase(c, run(c)))
-		c = genSessRandom(r.Fork(), maxOps, false)
-		d = append(d, toCase(c, run(c)))
-	}
-	add("sess_guarded", "sess", g, map[string]interface{}{"guard": "every live session has its own MAC"})
-	add("sess_defect", "sess", d, nil)
+	add("guarded", "sess", rndCases(3*rnd, func() Case { return genSessRandom(r.Fork(), maxOps, true) }), nil)
+	add("defect", "sess", rndCases(rnd, func() Case { return genSessRandom(r.Fork(), maxOps, false) }), nil)
 	// --- circuit-id keys
-	g, d = nil, nil
+	var fam []vh.Case
 	for _, c := range ckeyFamilies(r.Fork()) {
-		d = append(d, toCase(c, run(c)))
+		fam = append(fam, toCase(c, run(c)))
 	}
-	for i := 0; i < rnd/2; i++ {
-		c := genCKey(r.Fork(), true, 12+r.Intn(20))
-		g = append(g, toCase(c, run(c)))
-		c = genCKey(r.Fork(), false, 12+r.Intn(20))
-		d = append(d, toCase(c, run(c)))
-	}
-	add("ckey_guarded", "ckey", g, map[string]interface{}{"guard": "circuit-ids of at most 32 bytes that do not end in a zero byte"})
-	add("ckey_defect", "ckey", d, nil)
+	add("defect", "ckey", fam, nil)
+	add("guarded", "ckey", rndCases(rnd, func() Case { return genCKey(r.Fork(), true, 12+r.Intn(20)) }), nil)
+	add("defect", "ckey", rndCases(rnd, func() Case { return genCKey(r.Fork(), false, 12+r.Intn(20)) }), nil)
 	// --- index stores
 	names := []string{"state.subscribers", "state.leases", "state.sessions", "state.nat", "subscriber.Manager", "allocator.MemoryAllocationStore"}
 	for kind := 0; kind < 6; kind++ {
-		base := Case{Comp: "idx", Cfg: []int{kind}, Ops: nil}
+		kind := kind
+		base := Case{Comp: "idx", Cfg: []int{kind}}
 		dd := depth - 1
 		if kind < 4 {
 			dd = depth - 2
 		}
-		cs, ex := explore(base, idxAlphabet(kind), dd, capCases/2)
+		cs, ex := explore(base, idxAlphabet(kind), dd, capCases/4)
 		ex["store"] = names[kind]
-		add(fmt.Sprintf("idx%d_ex", kind), "idx", cs, ex)
-		g, d = nil, nil
-		for i := 0; i < rnd/2; i++ {
-			c := genIdx(r.Fork(), kind, maxOps, true)
-			g = append(g, toCase(c, run(c)))
-			c = genIdx(r.Fork(), kind, maxOps, false)
-			d = append(d, toCase(c, run(c)))
+		name := "defect"
+		if kind == 5 {
+			name = "guarded" // MemoryAllocationStore: no listed defect, every history is inside the guard
 		}
-		add(fmt.Sprintf("idx%d_guarded", kind), "idx", g, map[string]interface{}{"store": names[kind],
-			"guard": "fresh ids, secondary keys no other live entity holds, updates that keep or move to unheld keys"})
-		add(fmt.Sprintf("idx%d_defect", kind), "idx", d, map[string]interface{}{"store": names[kind]})
+		add(name, "idx", cs, ex)
+		add("guarded", "idx", rndCases(rnd, func() Case { return genIdx(r.Fork(), kind, maxOps, true) }), nil)
+		if kind != 5 {
+			add("defect", "idx", rndCases(rnd/2, func() Case { return genIdx(r.Fork(), kind, maxOps, false) }), nil)
+		} else {
+			add("guarded", "idx", rndCases(rnd/2, func() Case { return genIdx(r.Fork(), kind, maxOps, false) }), nil)
+		}
+	}
+	acc["guarded"].extra["guard"] = "VLAN allocator and QinQ mapper: every history; sessions: every live session has its own MAC; circuit-ids: at most 32 bytes, not ending in a zero byte; stores: fresh ids, secondary keys no other live entity holds, updates keep the indexed fields or move to unheld keys (MemoryAllocationStore: every history)"
+	acc["defect"].extra["note"] = "histories outside the guards: two sessions from one MAC, long / zero-terminated circuit-ids, duplicate secondary keys and indexed-field updates in the stores"
+	var out []stream
+	for _, n := range order {
+		out = append(out, *acc[n])
 	}
 	return out
 }
